@@ -129,6 +129,9 @@ OPNMIDI_EXPORT int opn2_reserveBanks(OPN2_MIDIPlayer *device, unsigned banks)
     MidiPlayer *play = GET_MIDI_PLAYER(device);
     assert(play);
     Synth::BankMap &map = play->m_synth->m_insBanks;
+    // There are 2 * 128 * 128 different bank ids: nothing beyond that can ever be stored
+    if(banks > 2u * 128u * 128u)
+        banks = 2u * 128u * 128u;
     map.reserve(banks);
     return (int)map.capacity();
 }
